@@ -124,6 +124,18 @@ func (c *Code) Global(index int) *Symbol {
 	return c.symbols.Root().Symbol(uint16(index))
 }
 
+// GlobalIndex returns the index of the global variable that the given name
+// refers to at the top level of the code. Variables declared in nested blocks
+// of the top-level code occupy global slots as well, but their names are not
+// visible at the top level.
+func (c *Code) GlobalIndex(name string) (int, bool) {
+	symbol, found := c.symbols.Root().Get(name)
+	if !found {
+		return 0, false
+	}
+	return int(symbol.Index()), true
+}
+
 func (c *Code) GlobalNames() []string {
 	root := c.symbols.Root()
 	count := root.Count()
